@@ -19,7 +19,7 @@ def teardown_configs(tier):
     S = "2022-blake3-aes-128-gcm"
     if tier == "quick":
         combos = [("shadowsocks", S, "tcp"), ("shadowsocks", S, "ws"), ("vmess", "aes-128-gcm", "tcp"), ("vmess", "aes-128-gcm", "ws"),
-                  ("trojan", None, "tls"), ("trojan", None, "wss")]
+                  ("trojan", None, "tls"), ("trojan", None, "wss"), ("trojan", None, "quic")]
     else:
         combos = [(p, c, t) for (p, c) in (("shadowsocks", S), ("vmess", "aes-128-gcm"), ("trojan", None)) for t in T.TRANSPORTS]
     return [{"name": "%s.%s.%s" % (p, c or "-", t), "spec": {"protocol": p, "cipher": c, "transport": t, "client_mode": "tcp"},
